@@ -1885,6 +1885,7 @@ pub fn control(label: &str, b: B) {
             let (vp, _) = e.check(&pcv, false, to, false, None);
             if vp == Verdict::Unsat { e.stats.controls -= 1; e.stats.paths_pruned += 1; e.notes.push(format!("path {:?} entered on an undecided feasibility query is infeasible", e.trace)); }
             else if vp == Verdict::Unknown { e.stats.controls -= 1; e.notes.push(format!("path {:?}: feasibility of the path condition itself is undecided (path kept, its obligations are still checked)", e.trace)); }
+            else if vd == Verdict::Unknown { e.stats.controls -= 1; e.notes.push(format!("path {:?}: control '{}' undecided by the solver (path condition satisfiable); not counted", e.trace, label)); }
             else { e.control_failures.push(format!("{}: {:?}", label, vd)); }
         }
     })
